@@ -412,6 +412,17 @@ func specStored(es []entry) map[[2]string]*storedMod {
 	return out
 }
 
+// refPseudo: "pseudo-version" by golang.org/x/mod, the reference independent of goproxytest's own regular
+// expression.  x/mod also accepts arbitrary build metadata where goproxytest (like the cmd/go code it was copied
+// from) accepts only +incompatible; those versions are outside the oracle (unclear = true).
+func refPseudo(v string) (pseudo, unclear bool) {
+	p := module.IsPseudoVersion(v)
+	if b := semver.Build(v); p && b != "" && b != "+incompatible" {
+		return false, true
+	}
+	return p, false
+}
+
 func isAllHexIndep(s string) bool {
 	return strings.Trim(s, "0123456789abcdef") == ""
 }
@@ -464,13 +475,12 @@ func oracle(es []entry, stored map[[2]string]*storedMod, p string, r resp) (clas
 	if file == "list" {
 		want := map[string]bool{}
 		for k, sm := range stored {
-			if k[0] == path && !sm.unclear && module.Check(k[0], k[1]) == nil && !module.IsPseudoVersion(k[1]) {
-				want[k[1]] = true
-			}
-		}
-		for k, sm := range stored {
-			if k[0] == path && sm.unclear {
+			ps, unclear := refPseudo(k[1])
+			if k[0] == path && (sm.unclear || unclear) {
 				return "", "", false
+			}
+			if k[0] == path && module.Check(k[0], k[1]) == nil && !ps {
+				want[k[1]] = true
 			}
 		}
 		if len(want) == 0 {
@@ -669,7 +679,22 @@ var relVersions = []string{"v1.0.0", "v1.2.3", "v0.1.0", "v2.0.0", "v2.3.4", "v3
 var preVersions = []string{"v1.0.0-rc.1", "v1.0.0-alpha", "v1.2.3-beta.2", "v1.0.0-RC1", "v1.0.0-0.3.7", "v2.0.0-pre", "v1.0.0-alpha.beta", "v1.0.0-x-y", "v1.2.3-0.2019010100000-abc"}
 var buildVersions = []string{"v1.0.0+meta", "v2.0.0+incompatible", "v1.0.0-rc.1+build.5", "v1.0.0+Meta", "v3.1.0+incompatible", "v2.0.0-pre+incompatible"}
 var pseudoVersions = []string{"v0.0.0-20190101000000-abcdef123456", "v1.2.4-0.20190101000000-abcdef123456", "v1.2.3-pre.0.20190101000000-abcdef123456",
-	"v2.0.1-0.20190101000000-abcdef123456+incompatible", "v1.0.0-20190101000000-abcdef123456", "v0.0.0-20200202020202-0123456789ab", "v2.0.0-20190101000000-ABCdef123456"}
+	"v2.0.1-0.20190101000000-abcdef123456+incompatible", "v1.0.0-20190101000000-abcdef123456", "v0.0.0-20200202020202-0123456789ab", "v2.0.0-20190101000000-ABCdef123456",
+	// form vX.Y.Z-pre.0.date-hash with hyphenated / dotted / numeric / upper-case pre-release identifiers
+	"v1.2.3-rc-1.0.20190101000000-abcdefabcdef", "v1.2.3-rc.1.0.20190101000000-abcdefabcdef", "v1.2.3-1.0.20190101000000-abcdefabcdef",
+	"v1.2.3-alpha-beta.2.0.20190101000000-abcdefabcdef", "v1.0.0-RC-1.0.20190101000000-abcdefabcdef", "v1.0.0-x--y.0.20190101000000-abcdefabcdef",
+	"v0.3.0-a.b-c.d.0.20190101000000-0123456789ab", "v1.2.3-0.0.20190101000000-abcdefabcdef", "v1.2.3--.0.20190101000000-abcdefabcdef",
+	"v2.1.0-rc-1.0.20190101000000-abcdefabcdef+incompatible", "v3.0.0-20190101000000-abcdefabcdef+incompatible", "v2.0.0-pre-x.0.20190101000000-abcdefabcdef+incompatible",
+	"v3.0.0-20190101000000-abcdefabcdef", "v10.20.31-0.20190101000000-a"}
+
+// valid semantic versions that look like pseudo-versions but are not (they must be listed)
+var nearPseudoVersions = []string{"v1.2.3-rc-1.1.20190101000000-abcdefabcdef", "v1.2.3-rc-1.0.2019010100000-abcdefabcdef", "v1.2.3-rc-1.0.201901010000000-abcdefabcdef",
+	"v1.2.3-rc-1.0.20190101000000", "v1.0.0-20190101000000-abc-def", "v1.0.1-20190101000000-abcdefabcdef", "v1.2.3-rc-1.0-20190101000000-abcdefabcdef",
+	"v1.2.3-0.20190101000000", "v1.2.3-rc-1.0.20190101000000-abcdef.1"}
+
+// pseudo-versions by golang.org/x/mod, not by goproxytest (build metadata other than +incompatible): outside the oracle
+var metaPseudoVersions = []string{"v1.2.4-0.20190101000000-abcdef123456+meta", "v1.2.3-rc-1.0.20190101000000-abcdefabcdef+build.5", "v0.0.0-20190101000000-abcdef123456+x"}
+
 var oddVersions = []string{"v1", "v1.2", "vfoo", "v1.2.3.4", "v01.2.3", "v1.2.3-", "v1.2.3-01", "v1.2.x", "vx_v1.0.0", "v1.0.0_v2", "v1.0.0-a_b", "v", "v1.0.0+", "v1.0.0 x", "v1.0.0-é"}
 
 func genVersion(r *rand.Rand, path string) string {
@@ -684,6 +709,11 @@ func genVersion(r *rand.Rand, path string) string {
 		v = pick(buildVersions)
 	case k < 16:
 		v = pick(pseudoVersions)
+		if r.Intn(5) == 0 {
+			v = pick(nearPseudoVersions)
+		} else if r.Intn(25) == 0 {
+			v = pick(metaPseudoVersions)
+		}
 	case k < 18:
 		v = pick(oddVersions[:len(oddVersions)-2])
 	case k == 18:
@@ -1072,8 +1102,11 @@ func strImplLine(s string, bits *[2]int) string {
 	line := "EP=" + showErr(ep, e1) + " UP=" + showErr(up, e2) + " EV=" + showErr(ev, e3) + " UV=" + showErr(uv, e4) +
 		" CP=" + b01(module.CheckPath(s) == nil) + " SPV=" + hx(pre) + "," + hx(pm) + "," + b01(ok) +
 		" SV=" + b01(semver.IsValid(s)) + " MJ=" + hx(semver.Major(s)) + " BD=" + hx(semver.Build(s))
+	ref, _ := refPseudo(s)
 	if bits != nil {
-		line += fmt.Sprintf(" PS=%d AH=%d", bits[0], bits[1])
+		line += fmt.Sprintf(" PS=%d PR=%s AH=%d", bits[0], b01(ref), bits[1])
+	} else {
+		line += " PR=" + b01(ref)
 	}
 	return line
 }
@@ -1179,7 +1212,7 @@ func runProxy(tier string, seed int64, model string, replay string) *corr.Result
 			pool = append(pool, hosts...)
 			pool = append(pool, gopkgs...)
 			pool = append(pool, badPaths...)
-			for _, l := range [][]string{relVersions, preVersions, buildVersions, pseudoVersions, oddVersions} {
+			for _, l := range [][]string{relVersions, preVersions, buildVersions, pseudoVersions, nearPseudoVersions, metaPseudoVersions, oddVersions} {
 				pool = append(pool, l...)
 			}
 			for _, w := range []string{"con", "CON.x", "nul.txt", "com1", "lpt9.a", "a~1", "a~b1", "~1", "a~12.x", "x.", ".x", "..", "a..b", "-a", "abcdef", "0123456789abcdef", "ABCDEF", "", "example.com/x/v2", "example.com/x/v2.0", "example.com/x/v0", "example.com/v2", "a.b/v2", "gopkg.in/x.v01", "gopkg.in/v2", "gopkg.in/x.v2-unstable", "gopkg.in/x.v0-unstable"} {
@@ -1256,6 +1289,16 @@ func runProxy(tier string, seed int64, model string, replay string) *corr.Result
 		if !strings.Contains(line, "EP=err UP=err EV=err UV=err") || strings.Contains(line, "SV=1") {
 			nStrNontrivial++
 		}
+		// oracle: goproxytest's isPseudoVersion against the x/mod reference
+		if ref, unclear := refPseudo(string(s)); bp != nil && !unclear {
+			res.OracleChecked["C20"]++
+			if ref {
+				res.Distribution["str-cases-pseudo-versions"]++
+			}
+			if (bp[0] == 1) != ref {
+				res.Violate("C20", "str "+corr.Hx(s), fmt.Sprintf("isPseudoVersion(%q) = %v but golang.org/x/mod/module.IsPseudoVersion = %v: the list endpoint %s it", s, bp[0] == 1, ref, map[bool]string{true: "would return", false: "would hide"}[ref]), "pseudo-differs-from-xmod")
+			}
+		}
 	}
 	for _, p := range pairInputs {
 		cases = append(cases, "pair "+hx(p[0])+" "+hx(p[1]))
@@ -1324,6 +1367,24 @@ func runProxy(tier string, seed int64, model string, replay string) *corr.Result
 			[]string{"/mod/example.com/foo_bar/@v/list", "/mod/example.com/foo_bar/@v/v1.0.0.info", "/mod/example.com/foo_bar/@v/v1.0.0.zip", "/mod/example.com/foo/bar/@v/v1.0.0.zip", "/mod/example.com/foo/bar/@v/list", "/mod/example.com/foo/bar/@v/v1.0.0.info"}, 0)
 		runScenario([]entry{{name: "example.com_a_b_v1.0.0.txt", data: ar("example.com/a/b")}}, nil,
 			[]string{"/mod/example.com/a/@v/b_v1.0.0.zip", "/mod/example.com/a/b/@v/v1.0.0.zip", "/mod/example.com/a_b/@v/v1.0.0.zip", "/mod/example.com/a/b/@v/v1.0.0.info"}, 8)
+		// every pseudo-version form next to real versions: list must name exactly the non-pseudo ones
+		{
+			var es []entry
+			var urls []string
+			for _, p := range []string{"example.com/pv", "example.com/pv/v2", "example.com/Pv/v3"} {
+				_, pm, _ := module.SplitPathVersion(p)
+				for _, v := range append(append(append([]string{"v1.0.0", "v1.2.3-rc-1", "v2.0.0", "v3.1.0", "v2.5.0+incompatible"}, pseudoVersions...), nearPseudoVersions...), metaPseudoVersions[0]) {
+					if module.CheckPathMajor(v, pm) != nil && v != "v2.0.0" {
+						continue
+					}
+					base := strings.ReplaceAll(escapeIndep(p), "/", "_") + "_" + escapeIndep(v)
+					es = append(es, entry{name: base + ".txt", data: []byte("-- .info --\n{\"Version\":\"" + v + "\"}\n-- .mod --\nmodule " + p + "\n-- go.mod --\nmodule " + p + "\n")})
+					urls = append(urls, "/mod/"+escapeIndep(p)+"/@v/"+escapeIndep(v)+".info")
+				}
+				urls = append(urls, "/mod/"+escapeIndep(p)+"/@v/list")
+			}
+			runScenario(es, nil, urls, 2)
+		}
 		// a member name longer than 65535 bytes: zip.Writer.Create fails, the error is cached and served as 500
 		runScenario([]entry{{name: "example.com_long_v1.0.0.txt", data: append(ar("example.com/long"), []byte("-- "+strings.Repeat("n", 70000)+" --\nx\n")...)}}, nil,
 			[]string{"/mod/example.com/long/@v/v1.0.0.zip", "/mod/example.com/long/@v/v1.0.0.info", "/mod/example.com/long/@v/v1.0.0.zip", "/mod/example.com/long/@v/list"}, 4)
